@@ -4,6 +4,7 @@ import importlib
 SPECS = [
     ("cvrp", "CVRP"), ("tsp", "TSP"),
     ("atsp", "ATSP"), ("pdp", "PDP"), ("op", "OP"), ("op", "OPBoundary"),
+    ("mtsp", "MTSP"), ("mdcpdp", "MDCPDP"), ("mdcpdp", "MDCPDPGen"), ("mdcpdp", "MDCPDPHet"),
     ("flp", "FLP"), ("flp", "FLPFull"), ("mcp", "MCP"), ("mcp", "MCPFull"), ("dpp", "DPP"), ("dpp", "MDPP"),
 ]
 
